@@ -416,3 +416,7 @@ Example decl_examples :
   fmt_assoc false [([97; 93], [120])] = [40; 91; 34; 97; 93; 34; 93; 61; 34; 120; 34; 32; 41] /\
   read_compound (fmt_assoc true [([97; 93], [120]); ([126], [])]) = Some [([97; 93], [120]); ([126], [])].
 Proof. vm_compute. repeat split; reflexivity. Qed.
+
+(** the formatter as it is now (regenerated flag) *)
+Theorem read_assoc_current kvs : Forall kv_ok_assoc kvs -> read_compound (fmt_assoc positional_escaping kvs) = Some kvs.
+Proof. rewrite positional_now. apply read_assoc. Qed.
